@@ -4,7 +4,7 @@
      msg     m name wellformed on          a message is fed to the processor (on: handler index of the subscription)
      invoke  m h valueok orig              handler h invoked: value equals the one sent, context exposes the original message
      settled m kind
-     bus     calls topic name exptopic expname roundtrip     one Send/Publish through a bus, seen by the capturing publisher  *)
+     bus     calls topic name exptopic expname roundtrip hook marked ctxok err     one Send/Publish through a bus, seen by the capturing publisher  *)
 EXTENDS Cqrs, TraceBase
 VARIABLES cfg, cur, calls
 tvars == <<cfg, cur, calls, l>>
@@ -19,7 +19,10 @@ TSettled == /\ Is("settled") /\ Ev.m = cur.m
             /\ LET d == Dispatch(cfg.kind, cfg.registry, cfg.flags, [name |-> cur.name, wellformed |-> cur.wellformed], cur.on) IN
                  calls = d.calls /\ Ev.kind = d.settle
             /\ cur' = NoMsg /\ calls' = << >> /\ UNCHANGED cfg /\ Adv
-TBus == Is("bus") /\ Ev.calls = 1 /\ Ev.topic = Ev.exptopic /\ Ev.name = Ev.expname /\ Ev.roundtrip
+\* hook = what the bus' OnSend / OnPublish hook does: nothing, edit the message (the edit is published), fail (nothing is published)
+TBus == Is("bus") /\ (IF Ev.hook = "fail" THEN Ev.calls = 0 /\ Ev.err
+                      ELSE /\ Ev.calls = 1 /\ ~Ev.err /\ Ev.topic = Ev.exptopic /\ Ev.name = Ev.expname /\ Ev.roundtrip
+                           /\ Ev.marked = (Ev.hook = "mark") /\ Ev.ctxok)
         /\ UNCHANGED <<cfg, cur, calls>> /\ Adv
 TNext == TReset \/ TMsg \/ TInvoke \/ TSettled \/ TBus
 TSpec == TInit /\ [][TNext]_tvars
